@@ -334,8 +334,20 @@ theorem lexTextLoop_sat {n : Int} {l0 : Lexer} : ∀ (k : Nat) (l : Lexer) (last
               have hp3 : l3.pos = l.pos + 2 := by lx
               have e2' : (l.pos + 2).toNat = l.pos.toNat + 2 := by omega
               rw [hp3, e2'] at hc2
-              exact lexSoyDoc_sat (by lx) (by lx) (by lx) (by lx) (by lx)
-                ⟨hcm.1, hcm.2, by rw [hin4, hs4, hst3]; omega⟩ (by inq)
+              obtain ⟨p4, l5, e5, hl5, hs5, hp5, hf5⟩ := peek_ex (l := l4) (by lx)
+              simp only [e5]
+              split
+              · -- "/**/": an empty block comment
+                obtain ⟨r6, l6, e6, hl6, hs6, hf6⟩ := next_ex (l := l5) (by lx)
+                unfold NextFacts at hf6
+                simp only [e6]
+                obtain ⟨l7, e7, hl7, hp7, hs7, hw7⟩ := emit_ex .tComment (l := l6) (by lx) (by lx) (by lx)
+                simp only [e7]
+                apply Sat.ofSome
+                apply Post.of (by lx) (by lx) (by lx) (by lx) (by lx) (by intro _ _; lx) (by intro _ _; lx) (by exq) (by inq)
+              · exact lexSoyDoc_sat (by lx) (by lx) (by lx) (by lx) (by lx)
+                  ⟨by rw [hl5.2.2.2.2.2, hs5]; exact hcm.1, by rw [hl5.2.2.2.2.2, hs5]; exact hcm.2,
+                   by rw [hl5.2.2.2.2.2, hs5, hin4, hs4, hst3]; omega⟩ (by inq)
             · exact lexBlockComment_sat _ l4.backup _ rfl (by lx) (by lx) (by lx) (by lx) (by lx)
                 (by simpa using hcm) (by inq)
           · exact ih _ (by omega) l2.backup _ rfl (by lx) (by lx) (by lx) (by lx) (by lx) (Or.inr (by lx)) (by inq)
